@@ -16,8 +16,8 @@ from scales.compat import BytesIO
 from scales.constants import SinkProperties
 from scales.core import ScalesUriParser
 from scales.dispatch import MessageDispatcher
-from scales.message import TimeoutError
-from scales.sink import ClientMessageSink, SinkProvider, TimeoutSinkProvider
+from scales.message import MethodCallMessage, TimeoutError
+from scales.sink import ClientMessageSink, ClientMessageSinkStack, SinkProvider, TimeoutSinkProvider
 from scales.thriftmux.protocol import MessageType
 from scales.thriftmux.sink import (
     ClientIdInterceptorSink, SocketTransportSink, ThriftMuxMessageSerializerSink)
@@ -84,7 +84,9 @@ def strategy(tier):
   hello = st.fixed_dictionaries({'m': st.just('hi'), 'args': st.tuples(c14.TEXT).map(list), 'outcome': st.just('value'),
                                  'ret': c14.TEXT, 'kw': st.booleans(), 'behave': st.sampled_from(['reply', 'reply_ctx', 'never'])})
   return st.fixed_dictionaries({
-      'kind': st.just('frames'),
+      'kind': st.sampled_from(['frames', 'frames', 'frames', 'early']),
+      'connect_ms': st.sampled_from([0, 2, 5]),
+      'stagger_ms': st.lists(st.sampled_from([0, 0, 1, 3, 6]), min_size=1, max_size=4),
       'svc': st.sampled_from(['rich', 'rich', 'hello']),
       'client_id': st.one_of(st.none(), st.text(alphabet='abcdefgh-_.0123', min_size=1, max_size=12),
                              st.text(min_size=1, max_size=10), st.text(alphabet='sérvice€\U0001F600', min_size=1, max_size=6)),
@@ -290,8 +292,92 @@ def _exec_frames(plan):
   return nt
 
 
+class _Terminal(ClientMessageSink):
+  def AsyncProcessRequest(self, *a):
+    raise HarnessError('terminal')
+
+  def AsyncProcessResponse(self, sink_stack, context, stream, msg):
+    context.append(msg)
+
+
+def _exec_early(plan):
+  """Several callers hand their requests to the sink chain from different greenlets while the connection is still
+  connecting / exchanging the initial ping: every frame must still carry its own caller's contexts and payload."""
+  import gevent
+  net = SimNet()
+  net.install()
+  calls = plan['calls']
+  iface, pf = (Rich.Iface, Rich.Processor) if plan['svc'] == 'rich' else (Hello.Iface, Hello.Processor)
+  peer = MuxPeer(pf, lambda method, args: None, lambda k, frame, method, args: ['never'])
+  srv = Server(net, ('127.0.0.1', PORT), peer)
+  srv.default_connect = ['accept', plan.get('connect_ms', 5) / 1000.0]
+  chain = [TimeoutSinkProvider()]
+  if plan['client_id'] is not None:
+    chain.append(ClientIdInterceptorSink.Builder(client_id=plan['client_id']))
+  chain.append(_PropsSink.Builder(props=tuple((k, v) for k, v in plan['props'])))
+  chain.append(ThriftMuxMessageSerializerSink.Builder())
+  chain.append(SocketTransportSink.Builder())
+  for a, b in zip(chain, chain[1:]):
+    a.next_provider = b
+  top = chain[0].CreateSink({SinkProperties.Label: 'svc', SinkProperties.ServiceInterface: iface, SinkProperties.Endpoint: EP})
+  top.Open()
+  want_ctx = dict((k, v) for k, v in plan['props'])
+  if plan['client_id'] is not None:
+    want_ctx[CLIENT_ID_KEY] = plan['client_id']
+  results = []
+
+  def submit(i, c):
+    m = c['m']
+    args = [c14._real(m, a) for a in c['args']]
+    if c['kw']:
+      msg = MethodCallMessage(iface, m, (), dict(zip(c14.ARG_NAMES[m], args)))
+    else:
+      msg = MethodCallMessage(iface, m, tuple(args), {})
+    msg.properties['vf.call'] = 'c%d' % i
+    got = []
+    results.append(got)
+    st_ = ClientMessageSinkStack()
+    st_.Push(_Terminal(), got)
+    top.AsyncProcessRequest(st_, msg, None, {})
+
+  stagger = plan.get('stagger_ms') or [0]
+  for i, c in enumerate(calls):
+    gevent.spawn_later(stagger[i % len(stagger)] / 1000.0, submit, i, c)
+  advance(0.1)
+  if peer.bad or peer.leftover():
+    raise Violation(ID, 'bad-framing', 'early callers: undecodable frame / trailing bytes: %r %r' % (peer.bad, peer.leftover()))
+  frames = [f for f in peer.frames if f['type'] == M.T_DISPATCH]
+  if len(frames) != len(calls):
+    raise Violation(ID, 'frame-count', 'early callers: %d Tdispatch frames for %d calls' % (len(frames), len(calls)))
+  if len(set(f['tag'] for f in frames)) != len(frames):
+    raise Violation(ID, 'tag-range', 'early callers: tags %r' % [f['tag'] for f in frames])
+  seen = {}
+  for f in frames:
+    ctx = dict((kb.decode('utf-8', 'replace'), vb) for kb, vb in f['contexts'])
+    who = ctx.pop('vf.call', b'?').decode('utf-8', 'replace')
+    if who in seen or not (who[:1] == 'c' and who[1:].isdigit() and int(who[1:]) < len(calls)):
+      raise Violation(ID, 'context-mismatch', 'early callers: frame with tag %d carries the contexts of call %r, which %s' % (
+          f['tag'], who, 'another frame already carried' if who in seen else 'nobody issued'))
+    seen[who] = f
+    c = calls[int(who[1:])]
+    args = [c14._real(c['m'], a) for a in c['args']]
+    ctx.pop(DEADLINE_KEY, None)
+    exp = dict((k, v.encode('utf-8')) for k, v in want_ctx.items())
+    if ctx != exp:
+      raise Violation(ID, 'context-mismatch', 'early callers: frame of call %s carries contexts %r, supplied %r' % (who, ctx, exp))
+    if f.get('decode_error') or f['method'] != c['m'] or len(f['args']) != len(args) or not all(c14._same(x, y) for x, y in zip(f['args'], args)):
+      raise Violation(ID, 'payload-mismatch', 'early callers: frame with the contexts of call %s (%s%r) carries payload %s%r %s' % (
+          who, c['m'], tuple(c['args']), f.get('method'), f.get('args'), f.get('decode_error') or ''))
+  top.Close()
+  settle()
+  return set(['callers during the handshake']) if len(calls) >= 2 else set()
+
+
 def execute(plan):
   with World(seed=0):
+    if plan['kind'] == 'early':
+      nt = _exec_early(plan)
+      return Outcome(nontrivial=sorted(nt) or None, classes=['early', 'svc=' + plan['svc']] + sorted(nt))
     if plan['kind'] == 'headers':
       n = _exec_headers(plan)
       return Outcome(nontrivial=['header range'], classes=['headers'], counts={'header_type_tag_pairs_checked': n})
